@@ -107,6 +107,13 @@ fn ty_of(a: &ArgSpec) -> Option<Ty> {
                 IntW::U64 => Ty::U64,
             },
             ValParser::Bool | ValParser::Boolish => Ty::Bool,
+            ValParser::Edge(k) => {
+                if edge_language(*k).0 {
+                    Ty::U64
+                } else {
+                    Ty::I64
+                }
+            }
         }),
     }
 }
@@ -121,6 +128,7 @@ fn canonical(a: &ArgSpec, ty: Ty, raw: &[u8]) -> Option<String> {
         Ty::I64 => {
             let (lo, hi) = match &a.parser {
                 ValParser::I64 { lo, hi } => (*lo as i128, *hi as i128),
+                ValParser::Edge(k) => (edge_language(*k).1, edge_language(*k).2),
                 _ => (i64::MIN as i128, i64::MAX as i128),
             };
             s.filter(|t| dec_in_range(t, lo, hi)).map(own_decimal)
@@ -129,13 +137,14 @@ fn canonical(a: &ArgSpec, ty: Ty, raw: &[u8]) -> Option<String> {
         Ty::I8 | Ty::I16 | Ty::I32 | Ty::U32 | Ty::U64 => {
             let (lo, hi) = match &a.parser {
                 ValParser::Int { w, range } => w.language(*range),
+                ValParser::Edge(k) => (edge_language(*k).1, edge_language(*k).2),
                 _ => (i128::MIN, i128::MAX),
             };
             s.filter(|t| dec_in_range(t, lo, hi)).map(own_decimal)
         }
         Ty::U8 => {
             let (lo, hi) = match &a.parser {
-                ValParser::Int { w, range } if a.action.takes_values() => w.language(*range),
+                ValParser::Int { w, range } if a.action.takes_values() || a.action == Action::Count => w.language(*range),
                 _ => (0, 255),
             };
             s.filter(|t| dec_in_range(t, lo, hi)).map(own_decimal)
@@ -232,6 +241,10 @@ macro_rules! typed_access {
             _ => Got::NoneV,
         }
     };
+}
+
+fn group_ids(m: &ArgMatches, id: &str) -> Option<Vec<String>> {
+    m.try_get_many::<clap::Id>(id).ok().flatten().map(|v| v.map(|x| x.as_str().to_string()).collect())
 }
 
 fn access(m: &mut ArgMatches, acc: Acc, id: &str, ty: Ty) -> Got {
@@ -419,6 +432,15 @@ fn lang_candidate(rng: &mut Rng, a: &ArgSpec) -> B {
                 0 => B::s(&format!("+{n}")),
                 1 => B::s(&format!("0{n}")),
                 2 => B::s(*rng.pick(&["", "-", "1 ", "0x1", "1.0"])),
+                _ => B::s(&n.to_string()),
+            }
+        }
+        ValParser::Edge(k) => {
+            let (_, lo, hi) = edge_language(*k);
+            let n = *rng.pick(&[0, 0, 1, -1, lo, hi, lo - 1, hi + 1, i64::MIN as i128, i64::MAX as i128, u64::MAX as i128, u64::MAX as i128 + 1, i64::MIN as i128 - 1]);
+            match rng.below(6) {
+                0 => B::s(&format!("+{n}")),
+                1 => B::s(&format!("0{n}")),
                 _ => B::s(&n.to_string()),
             }
         }
@@ -615,7 +637,9 @@ fn exec_access(sc: &C04Sc, log: &mut Log, out: &mut Outcome) {
         let ask = op.ask.or(own).unwrap_or(Ty::Str);
         shape.add(op.acc as u64 * 8 + ask as u64);
         let target = if op.on_clone { &mut copy } else { &mut orig };
+        let group_before = if op.id == IdSel::Group { Some(group_ids(target, &id)) } else { None };
         let got = access(target, op.acc, &id, ask);
+        let group_after = if op.id == IdSel::Group { Some(group_ids(target, &id)) } else { None };
         let is_typed = !matches!(op.acc, Acc::GetRaw | Acc::Contains | Acc::Clear);
         let is_remove = matches!(op.acc, Acc::RemoveOne | Acc::RemoveMany | Acc::RemoveOccurrences);
         out.comparisons += 1;
@@ -644,6 +668,21 @@ fn exec_access(sc: &C04Sc, log: &mut Log, out: &mut Outcome) {
                 if matches!(got, Got::Err("UnknownArgument")) {
                     out.violate("known-id-rejected", format!("{:?}", op.acc), format!("{desc}: a group / external-subcommand id is a known id"));
                     return;
+                }
+                // a group stores the ids of its present members: no typed access of this workload has that
+                // type, so every typed remove fails (or finds nothing) and must leave the group as it was
+                let legit_change = op.acc == Acc::Clear || matches!(got, Got::One(_) | Got::Many(_) | Got::Occ(_));
+                if op.id == IdSel::Group && !legit_change && group_before != group_after {
+                    if matches!(got, Got::Err(_)) {
+                        faults += 1;
+                        out.count("fault.wrong_type_access_on_group");
+                    }
+                    out.violate("stored-values-disturbed", format!("group/{:?}", op.acc), format!("{desc}: the group held {:?} before the call and holds {:?} after it", group_before, group_after));
+                    return;
+                }
+                if op.id == IdSel::Group && matches!(got, Got::Err(_)) {
+                    faults += 1;
+                    out.count("fault.wrong_type_access_on_group");
                 }
             }
             (IdSel::Arg(_), Some(_a)) => {
